@@ -112,6 +112,8 @@ pub struct World {
     pub wire_checks: u64,
     pub injected_roundtrip_at: Option<u64>,
     pub outcomes_after_roundtrip: u64,
+    /// failures at sites that belong to other properties only and do not desynchronise the model: counted, the case goes on
+    pub off_soft: std::cell::RefCell<Vec<String>>,
 }
 
 fn dnf_str(dnf: &[Conj]) -> String {
@@ -157,6 +159,7 @@ impl World {
             wire_checks: 0,
             injected_roundtrip_at: None,
             outcomes_after_roundtrip: 0,
+            off_soft: std::cell::RefCell::new(vec![]),
         };
         // learn the bytes of the initial broadcast secret
         if let Ok(b) = ser(&w.msk) {
@@ -187,6 +190,21 @@ impl World {
             Err(Abort::Violation(Fail::new(sig, full)))
         } else {
             Err(Abort::OffProperty(format!("{sig} [{}]", props.join(","))))
+        }
+    }
+
+    /// Like `fail`, for observation sites (serialized state, snapshots): when the site does not
+    /// belong to the property under check the failure is counted and the case continues, so that
+    /// the property's own observations (verdicts, Ok/Err) are still reached.
+    pub fn soft(&self, props: &[&str], sig: &str, msg: String) -> Step {
+        if props.contains(&self.focus.as_str()) || self.focus == "*" {
+            self.fail(props, sig, msg)
+        } else {
+            let mut o = self.off_soft.borrow_mut();
+            if o.len() < 16 {
+                o.push(format!("{sig} [{}]", props.join(",")));
+            }
+            Ok(())
         }
     }
 
@@ -263,15 +281,15 @@ impl World {
     pub fn compare_msk(&mut self, created: &[(RightM, RevId)]) -> Step {
         let bytes = match ser(&self.msk) {
             Ok(b) => b,
-            Err(f) => return self.fail(&["C13"], "msk-serialize-failed", f.message),
+            Err(f) => return self.soft(&["C13"], "msk-serialize-failed", f.message),
         };
         let wm = match WMsk::decode(&bytes) {
             Ok(w) => w,
-            Err(e) => return self.fail(&["C13"], "codec-cannot-decode-msk", format!("independent codec cannot decode the serialized MSK: {e}")),
+            Err(e) => return self.soft(&["C13"], "codec-cannot-decode-msk", format!("independent codec cannot decode the serialized MSK: {e}")),
         };
         self.wire_checks += 1;
         if wm.encode() != bytes {
-            return self.fail(&["C13"], "codec-reencode-differs-msk", "re-encoding the decoded MSK differs from the serialized bytes".into());
+            return self.soft(&["C13"], "codec-reencode-differs-msk", "re-encoding the decoded MSK differs from the serialized bytes".into());
         }
         self.compare_structure(&wm.structure, &self.m.structure.clone(), "msk")?;
         // rights
@@ -280,40 +298,40 @@ impl World {
             match self.right_bytes(r) {
                 Some(b) => {
                     if expected.insert(b.clone(), (r, chain)).is_some() {
-                        return self.fail(&["C03"], "two-model-rights-share-one-real-right", format!("two distinct attribute combinations map to the same serialized right {}", wire::hex(&b)));
+                        return self.soft(&["C03"], "two-model-rights-share-one-real-right", format!("two distinct attribute combinations map to the same serialized right {}", wire::hex(&b)));
                     }
                 }
-                None => return self.fail(&["C13"], "internal-missing-real-id", format!("no real id for right {r:?}")),
+                None => return self.soft(&["C13"], "internal-missing-real-id", format!("no real id for right {r:?}")),
             }
         }
         let real: BTreeMap<Vec<u8>, &Vec<(u64, wire::WSecret)>> = wm.rights.iter().map(|(r, c)| (r.clone(), c)).collect();
         if real.len() != wm.rights.len() {
-            return self.fail(&["C13"], "msk-duplicate-right", "serialized MSK lists a right twice".into());
+            return self.soft(&["C13"], "msk-duplicate-right", "serialized MSK lists a right twice".into());
         }
         for (b, (r, chain)) in &expected {
             let Some(rc) = real.get(b) else {
-                return self.fail(&["C03", "C05", "C13", "C10"], "msk-right-missing", format!("MSK lacks right {:?} ({}) the model holds", self.describe_right(r), wire::hex(b)));
+                return self.soft(&["C03", "C05", "C13", "C10"], "msk-right-missing", format!("MSK lacks right {:?} ({}) the model holds", self.describe_right(r), wire::hex(b)));
             };
             if rc.len() != chain.len() {
-                return self.fail(&["C04", "C05", "C13", "C10"], "msk-chain-length", format!("right {:?}: MSK chain has {} secrets, model {}", self.describe_right(r), rc.len(), chain.len()));
+                return self.soft(&["C04", "C05", "C13", "C10"], "msk-chain-length", format!("right {:?}: MSK chain has {} secrets, model {}", self.describe_right(r), rc.len(), chain.len()));
             }
             for (k, (rev, (act, sec))) in chain.iter().zip(rc.iter()).enumerate() {
                 if (*act == 1) != rev.activated {
-                    return self.fail(&["C06", "C13"], "msk-activation-flag", format!("right {:?} revision #{k}: activation flag {} but model says activated={}", self.describe_right(r), act, rev.activated));
+                    return self.soft(&["C06", "C13"], "msk-activation-flag", format!("right {:?} revision #{k}: activation flag {} but model says activated={}", self.describe_right(r), act, rev.activated));
                 }
                 if sec.hyb != rev.hybrid {
-                    return self.fail(&["C11", "C13"], "msk-flavour", format!("right {:?} revision #{k}: hybridized={} but the model says {}", self.describe_right(r), sec.hyb, rev.hybrid));
+                    return self.soft(&["C11", "C13"], "msk-flavour", format!("right {:?} revision #{k}: hybridized={} but the model says {}", self.describe_right(r), sec.hyb, rev.hybrid));
                 }
                 match self.rev_bytes.get(&rev.id) {
                     Some(known) => {
                         if known != &sec.sk {
-                            return self.fail(&["C04", "C05", "C13", "C10"], "msk-secret-changed", format!("right {:?} revision #{k}: secret bytes differ from when it was created", self.describe_right(r)));
+                            return self.soft(&["C04", "C05", "C13", "C10"], "msk-secret-changed", format!("right {:?} revision #{k}: secret bytes differ from when it was created", self.describe_right(r)));
                         }
                     }
                     None => {
                         if created.iter().any(|(_, id)| *id == rev.id) {
                             if self.rev_bytes.values().any(|v| v == &sec.sk) {
-                                return self.fail(&["C16", "C04"], "new-secret-not-fresh", format!("right {:?}: freshly created secret equals an existing one", self.describe_right(r)));
+                                return self.soft(&["C16", "C04"], "new-secret-not-fresh", format!("right {:?}: freshly created secret equals an existing one", self.describe_right(r)));
                             }
                         }
                     }
@@ -322,7 +340,7 @@ impl World {
         }
         for b in real.keys() {
             if !expected.contains_key(b) {
-                return self.fail(&["C03", "C05", "C13", "C10"], "msk-extra-right", format!("MSK holds right {} the model does not", wire::hex(b)));
+                return self.soft(&["C03", "C05", "C13", "C10"], "msk-extra-right", format!("MSK holds right {} the model does not", wire::hex(b)));
             }
         }
         // learn new bytes
@@ -334,13 +352,13 @@ impl World {
         }
         // users
         if wm.users.len() != self.m.users.len() {
-            return self.fail(&["C17", "C13", "C10"], "msk-user-count", format!("MSK registers {} user ids, model {}", wm.users.len(), self.m.users.len()));
+            return self.soft(&["C17", "C13", "C10"], "msk-user-count", format!("MSK registers {} user ids, model {}", wm.users.len(), self.m.users.len()));
         }
         if wm.tracers.len() != 2 {
-            return self.fail(&["C17", "C13"], "msk-tracer-count", format!("MSK has {} tracers, setup() promises tracing level 1 (2 tracers)", wm.tracers.len()));
+            return self.soft(&["C17", "C13"], "msk-tracer-count", format!("MSK has {} tracers, setup() promises tracing level 1 (2 tracers)", wm.tracers.len()));
         }
         if wm.signing_key.is_none() {
-            return self.fail(&["C08", "C13"], "msk-no-signing-key", "MSK has no signing key".into());
+            return self.soft(&["C08", "C13"], "msk-no-signing-key", "MSK has no signing key".into());
         }
         Ok(())
     }
@@ -362,38 +380,38 @@ impl World {
 
     fn compare_structure(&self, ws: &WStructure, ms: &MStructure, what: &str) -> Step {
         if ws.dims.len() != ms.dims.len() {
-            return self.fail(&["C03", "C13"], "structure-dimension-count", format!("{what}: serialized structure has {} dimensions, model {}", ws.dims.len(), ms.dims.len()));
+            return self.soft(&["C03", "C13"], "structure-dimension-count", format!("{what}: serialized structure has {} dimensions, model {}", ws.dims.len(), ms.dims.len()));
         }
         for d in &ms.dims {
             let Some(wd) = ws.dim(&d.name) else {
-                return self.fail(&["C03", "C13"], "structure-dimension-missing", format!("{what}: dimension {} missing from the serialized structure", d.name));
+                return self.soft(&["C03", "C13"], "structure-dimension-missing", format!("{what}: dimension {} missing from the serialized structure", d.name));
             };
             if (wd.ordered == 1) != d.hier {
-                return self.fail(&["C03", "C13"], "structure-dimension-kind", format!("{what}: dimension {} kind differs", d.name));
+                return self.soft(&["C03", "C13"], "structure-dimension-kind", format!("{what}: dimension {} kind differs", d.name));
             }
             if wd.attrs.len() != d.attrs.len() {
-                return self.fail(&["C03", "C13"], "structure-attribute-count", format!("{what}: dimension {} has {} attributes, model {}", d.name, wd.attrs.len(), d.attrs.len()));
+                return self.soft(&["C03", "C13"], "structure-attribute-count", format!("{what}: dimension {} has {} attributes, model {}", d.name, wd.attrs.len(), d.attrs.len()));
             }
             if d.hier {
                 let got: Vec<&str> = wd.attrs.iter().map(|a| a.name.as_str()).collect();
                 let want: Vec<&str> = d.attrs.iter().map(|a| a.name.as_str()).collect();
                 if got != want {
-                    return self.fail(&["C03", "C13"], "hierarchy-order", format!("{what}: hierarchy {} is ordered {got:?}, documented insertion rule gives {want:?}", d.name));
+                    return self.soft(&["C03", "C13"], "hierarchy-order", format!("{what}: hierarchy {} is ordered {got:?}, documented insertion rule gives {want:?}", d.name));
                 }
             }
             for a in &d.attrs {
                 let Some(wa) = wd.attrs.iter().find(|x| x.name == a.name) else {
-                    return self.fail(&["C03", "C13"], "structure-attribute-missing", format!("{what}: attribute {}::{} missing", d.name, a.name));
+                    return self.soft(&["C03", "C13"], "structure-attribute-missing", format!("{what}: attribute {}::{} missing", d.name, a.name));
                 };
                 if (wa.hint == 1) != a.hybrid {
-                    return self.fail(&["C11", "C13"], "structure-hint", format!("{what}: attribute {}::{} hint differs", d.name, a.name));
+                    return self.soft(&["C11", "C13"], "structure-hint", format!("{what}: attribute {}::{} hint differs", d.name, a.name));
                 }
                 if (wa.status == 0) != a.disabled {
-                    return self.fail(&["C06", "C13"], "structure-status", format!("{what}: attribute {}::{} status differs", d.name, a.name));
+                    return self.soft(&["C06", "C13"], "structure-status", format!("{what}: attribute {}::{} status differs", d.name, a.name));
                 }
                 if let Some(id) = a.real_id {
                     if wa.id != id {
-                        return self.fail(&["C03", "C13"], "attribute-id-changed", format!("{what}: attribute {}::{} id changed from {} to {}", d.name, a.name, id, wa.id));
+                        return self.soft(&["C03", "C13"], "attribute-id-changed", format!("{what}: attribute {}::{} id changed from {} to {}", d.name, a.name, id, wa.id));
                     }
                 }
             }
@@ -448,28 +466,28 @@ impl World {
     pub fn compare_mpk(&mut self, mpk: &MasterPublicKey, mm: &MMpk) -> Step {
         let bytes = match ser(mpk) {
             Ok(b) => b,
-            Err(f) => return self.fail(&["C13"], "mpk-serialize-failed", f.message),
+            Err(f) => return self.soft(&["C13"], "mpk-serialize-failed", f.message),
         };
         let wp = match WMpk::decode(&bytes) {
             Ok(w) => w,
-            Err(e) => return self.fail(&["C13"], "codec-cannot-decode-mpk", e),
+            Err(e) => return self.soft(&["C13"], "codec-cannot-decode-mpk", e),
         };
         self.wire_checks += 1;
         if wp.encode() != bytes {
-            return self.fail(&["C13"], "codec-reencode-differs-mpk", "re-encoding the decoded MPK differs".into());
+            return self.soft(&["C13"], "codec-reencode-differs-mpk", "re-encoding the decoded MPK differs".into());
         }
         self.compare_structure(&wp.structure, &mm.structure, "mpk")?;
         if wp.keys.len() != mm.keys.len() {
             let props: &[&str] = if wp.keys.len() > mm.keys.len() { &["C06", "C13", "C03"] } else { &["C13", "C03", "C04"] };
-            return self.fail(props, "mpk-right-count", format!("MPK publishes {} rights, model {}", wp.keys.len(), mm.keys.len()));
+            return self.soft(props, "mpk-right-count", format!("MPK publishes {} rights, model {}", wp.keys.len(), mm.keys.len()));
         }
         for (r, (_rev, hyb)) in &mm.keys {
             let Some(b) = self.right_bytes(r) else { continue };
             match wp.key(&b) {
-                None => return self.fail(&["C13", "C03", "C06"], "mpk-right-missing", format!("MPK lacks a key for right {}", self.describe_right(r))),
+                None => return self.soft(&["C13", "C03", "C06"], "mpk-right-missing", format!("MPK lacks a key for right {}", self.describe_right(r))),
                 Some(k) => {
                     if k.hyb != *hyb {
-                        return self.fail(&["C11", "C13"], "mpk-flavour", format!("MPK key of right {} has hybridized={}, model {}", self.describe_right(r), k.hyb, hyb));
+                        return self.soft(&["C11", "C13"], "mpk-flavour", format!("MPK key of right {} has hybridized={}, model {}", self.describe_right(r), k.hyb, hyb));
                     }
                 }
             }
@@ -480,44 +498,44 @@ impl World {
     pub fn compare_usk(&mut self, idx: usize) -> Step {
         let bytes = match ser(&self.usks[idx].key) {
             Ok(b) => b,
-            Err(f) => return self.fail(&["C13"], "usk-serialize-failed", f.message),
+            Err(f) => return self.soft(&["C13"], "usk-serialize-failed", f.message),
         };
         let wu = match WUsk::decode(&bytes) {
             Ok(w) => w,
-            Err(e) => return self.fail(&["C13"], "codec-cannot-decode-usk", e),
+            Err(e) => return self.soft(&["C13"], "codec-cannot-decode-usk", e),
         };
         self.wire_checks += 1;
         if wu.encode() != bytes {
-            return self.fail(&["C13"], "codec-reencode-differs-usk", "re-encoding the decoded USK differs".into());
+            return self.soft(&["C13"], "codec-reencode-differs-usk", "re-encoding the decoded USK differs".into());
         }
         let m = self.usks[idx].m.clone();
         if wu.rights.len() != m.rights.len() {
-            return self.fail(&["C05", "C04", "C03", "C13"], "usk-right-count", format!("user key '{}' holds {} rights, model {}", m.policy, wu.rights.len(), m.rights.len()));
+            return self.soft(&["C05", "C04", "C03", "C13"], "usk-right-count", format!("user key '{}' holds {} rights, model {}", m.policy, wu.rights.len(), m.rights.len()));
         }
         for (r, revs) in &m.rights {
             let Some(b) = self.right_bytes(r) else { continue };
             let Some(chain) = wu.chain(&b) else {
-                return self.fail(&["C05", "C04", "C03", "C13"], "usk-right-missing", format!("user key '{}' lacks right {}", m.policy, self.describe_right(r)));
+                return self.soft(&["C05", "C04", "C03", "C13"], "usk-right-missing", format!("user key '{}' lacks right {}", m.policy, self.describe_right(r)));
             };
             if chain.len() != revs.len() {
-                return self.fail(&["C04", "C05", "C13"], "usk-chain-length", format!("user key '{}' right {}: chain has {} secrets, model {} ({:?})", m.policy, self.describe_right(r), chain.len(), revs.len(), revs));
+                return self.soft(&["C04", "C05", "C13"], "usk-chain-length", format!("user key '{}' right {}: chain has {} secrets, model {} ({:?})", m.policy, self.describe_right(r), chain.len(), revs.len(), revs));
             }
             for (k, (rev, sec)) in revs.iter().zip(chain.iter()).enumerate() {
                 if let Some(known) = self.rev_bytes.get(rev) {
                     if known != &sec.sk {
-                        return self.fail(&["C04", "C05", "C13"], "usk-chain-content", format!("user key '{}' right {}: secret #{k} is not revision {rev} of the master key", m.policy, self.describe_right(r)));
+                        return self.soft(&["C04", "C05", "C13"], "usk-chain-content", format!("user key '{}' right {}: secret #{k} is not revision {rev} of the master key", m.policy, self.describe_right(r)));
                     }
                 }
                 let want_h = self.m.rights.get(r).and_then(|c| c.iter().find(|x| x.id == *rev)).map(|x| x.hybrid);
                 if let Some(h) = want_h {
                     if sec.hyb != h {
-                        return self.fail(&["C11", "C13"], "usk-flavour", format!("user key '{}' right {}: secret #{k} hybridized={}, model {}", m.policy, self.describe_right(r), sec.hyb, h));
+                        return self.soft(&["C11", "C13"], "usk-flavour", format!("user key '{}' right {}: secret #{k} hybridized={}, model {}", m.policy, self.describe_right(r), sec.hyb, h));
                     }
                 }
             }
         }
         if wu.signature.is_none() {
-            return self.fail(&["C08", "C13"], "usk-unsigned", "issued user key carries no signature".into());
+            return self.soft(&["C08", "C13"], "usk-unsigned", "issued user key carries no signature".into());
         }
         self.usks[idx].id_bytes = wu.id.clone();
         Ok(())
@@ -599,11 +617,11 @@ impl World {
     fn msk_untouched(&self, before: &[u8], op: &str, cause: &str) -> Step {
         let old: MasterSecretKey = match de(before) {
             Ok(k) => k,
-            Err(e) => return self.fail(&["C13"], "msk-snapshot-unreadable", e),
+            Err(e) => return self.soft(&["C13"], "msk-snapshot-unreadable", e),
         };
         if old != self.msk {
             let now = ser(&self.msk).map(|b| b.len()).unwrap_or(0);
-            return self.fail(
+            return self.soft(
                 &["C10"],
                 &format!("msk-modified-by-failed-{op}:{cause}"),
                 format!("{op} returned Err ({cause}) but the master key changed ({} -> {} bytes)", before.len(), now),
@@ -615,11 +633,11 @@ impl World {
     fn usk_untouched(&self, before: &[u8], now: &UserSecretKey, op: &str, cause: &str) -> Step {
         let old: UserSecretKey = match de(before) {
             Ok(k) => k,
-            Err(e) => return self.fail(&["C13"], "usk-snapshot-unreadable", e),
+            Err(e) => return self.soft(&["C13"], "usk-snapshot-unreadable", e),
         };
         if &old != now {
             let n = ser(now).map(|b| b.len()).unwrap_or(0);
-            return self.fail(
+            return self.soft(
                 &["C10", "C08"],
                 &format!("usk-modified-by-failed-{op}:{cause}"),
                 format!("{op} returned Err ({cause}) but the user key changed ({} -> {} bytes)", before.len(), n),
@@ -1119,19 +1137,19 @@ impl World {
             };
             self.wire_checks += 1;
             if wx.encode() != bytes {
-                return self.fail(&["C13"], "codec-reencode-differs-xenc", "re-encoding the decoded encapsulation differs".into());
+                return self.soft(&["C13"], "codec-reencode-differs-xenc", "re-encoding the decoded encapsulation differs".into());
             }
             if wx.hyb != hybrid {
-                return self.fail(&["C11"], "xenc-flavour", format!("encapsulation for {} is hybridized={}, but {} of its targets are hybridized rights", dnf_str(dnf), wx.hyb, if hybrid { "all" } else { "not all" }));
+                return self.soft(&["C11"], "xenc-flavour", format!("encapsulation for {} is hybridized={}, but {} of its targets are hybridized rights", dnf_str(dnf), wx.hyb, if hybrid { "all" } else { "not all" }));
             }
             if wx.encs.len() != targets.len() {
-                return self.fail(&["C11", "C01", "C13"], "xenc-target-count", format!("encapsulation for {} carries {} components, {} targets expected", dnf_str(dnf), wx.encs.len(), targets.len()));
+                return self.soft(&["C11", "C01", "C13"], "xenc-target-count", format!("encapsulation for {} carries {} components, {} targets expected", dnf_str(dnf), wx.encs.len(), targets.len()));
             }
             if bytes.len() != WXEnc::formula_len(2, hybrid, targets.len()) {
-                return self.fail(&["C11", "C13"], "xenc-size-formula", format!("encapsulation size {} differs from the documented formula {}", bytes.len(), WXEnc::formula_len(2, hybrid, targets.len())));
+                return self.soft(&["C11", "C13"], "xenc-size-formula", format!("encapsulation size {} differs from the documented formula {}", bytes.len(), WXEnc::formula_len(2, hybrid, targets.len())));
             }
             if enc.count() != targets.len() {
-                return self.fail(&["C13", "C18"], "xenc-count-accessor", "XEnc::count() differs from the number of targets".into());
+                return self.soft(&["C13", "C18"], "xenc-count-accessor", "XEnc::count() differs from the number of targets".into());
             }
             // [C11] ML-KEM ciphertexts are bound into the tag: altering one must make authorized keys fail
             if hybrid && self.focus == "C11" {
@@ -1243,22 +1261,22 @@ impl World {
         let Ok(wm) = WMsk::decode(&bytes) else { return Ok(()) };
         let id = self.usks[idx].id_bytes.clone();
         if !wm.users.iter().any(|u| *u == id) {
-            return self.fail(&["C17"], "issued-id-not-registered", format!("user key #{idx}: its identifier is not in the master key's user set"));
+            return self.soft(&["C17"], "issued-id-not-registered", format!("user key #{idx}: its identifier is not in the master key's user set"));
         }
         // all registered ids distinct
         let set: BTreeSet<&Vec<Vec<u8>>> = wm.users.iter().collect();
         if set.len() != wm.users.len() {
-            return self.fail(&["C17", "C16"], "duplicate-user-id", "two registered user ids are equal".into());
+            return self.soft(&["C17", "C16"], "duplicate-user-id", "two registered user ids are equal".into());
         }
         if let Err(e) = crate::props::c17::tracing_relation(&wm, &id) {
-            return self.fail(&["C17"], "tracing-relation-violated", format!("user key #{idx}: {e}"));
+            return self.soft(&["C17"], "tracing-relation-violated", format!("user key #{idx}: {e}"));
         }
         // tracing points embedded in the user key and in the public keys = public tracers of the master key
         let pts: Vec<Vec<u8>> = wm.tracers.iter().map(|(_, p)| p.clone()).collect();
         if let Ok(b) = ser(&self.usks[idx].key) {
             if let Ok(wu) = WUsk::decode(&b) {
                 if wu.ps != pts {
-                    return self.fail(&["C17"], "usk-tracing-points-differ", format!("user key #{idx}: embedded tracing points differ from the master key's public tracers"));
+                    return self.soft(&["C17"], "usk-tracing-points-differ", format!("user key #{idx}: embedded tracing points differ from the master key's public tracers"));
                 }
             }
         }
@@ -1266,7 +1284,7 @@ impl World {
         if let Ok(b) = ser(&self.mpks[last].0) {
             if let Ok(wp) = WMpk::decode(&b) {
                 if wp.tpk != pts {
-                    return self.fail(&["C17"], "mpk-tracing-points-differ", "latest public key: tracing points differ from the master key's public tracers".into());
+                    return self.soft(&["C17"], "mpk-tracing-points-differ", "latest public key: tracing points differ from the master key's public tracers".into());
                 }
             }
         }
@@ -1287,7 +1305,7 @@ impl World {
                 match de::<MasterSecretKey>(&b) {
                     Ok(k) => {
                         if k != self.msk {
-                            return self.fail(&["C13"], "roundtrip-not-equal:msk", "deserialize(serialize(msk)) != msk".into());
+                            self.soft(&["C13"], "roundtrip-not-equal:msk", "deserialize(serialize(msk)) != msk".into())?;
                         }
                         self.msk = k;
                         self.log("round-trip MSK".into());
@@ -1315,7 +1333,7 @@ impl World {
                 match de::<MasterPublicKey>(&b) {
                     Ok(k) => {
                         if k != self.mpks[i].0 {
-                            return self.fail(&["C13"], "roundtrip-not-equal:mpk", "deserialize(serialize(mpk)) != mpk".into());
+                            self.soft(&["C13"], "roundtrip-not-equal:mpk", "deserialize(serialize(mpk)) != mpk".into())?;
                         }
                         self.mpks[i].0 = k;
                         self.log(format!("round-trip public key #{i}"));
@@ -1335,7 +1353,7 @@ impl World {
                 match de::<UserSecretKey>(&b) {
                     Ok(k) => {
                         if k != self.usks[i].key {
-                            return self.fail(&["C13"], "roundtrip-not-equal:usk", "deserialize(serialize(usk)) != usk".into());
+                            self.soft(&["C13"], "roundtrip-not-equal:usk", "deserialize(serialize(usk)) != usk".into())?;
                         }
                         self.usks[i].key = k;
                         self.log(format!("round-trip user key #{i}"));
@@ -1358,7 +1376,7 @@ impl World {
                 match de::<XEnc>(&b) {
                     Ok(k) => {
                         if k != self.encs[i].enc {
-                            return self.fail(&["C13"], "roundtrip-not-equal:xenc", "deserialize(serialize(xenc)) != xenc".into());
+                            self.soft(&["C13"], "roundtrip-not-equal:xenc", "deserialize(serialize(xenc)) != xenc".into())?;
                         }
                         self.encs[i].enc = k;
                         self.log(format!("round-trip encapsulation #{i}"));
@@ -1411,12 +1429,8 @@ impl World {
         }
         if publishable.is_empty() {
             self.events.insert("recaps-none-recoverable");
-            if r.is_ok() {
-                // an Ok result must at least not be openable by anyone; tolerated only if it targets nothing
-                let (_s, e2) = r.unwrap();
-                if e2.count() != 0 {
-                    return self.fail(&["C18", "C09"], "recaps-succeeds-with-nothing-recoverable", format!("recaps of '{}' succeeded with {} targets although none of the original rights can be recovered and published", orig.policy, e2.count()));
-                }
+            if let Ok((_s, e2)) = r {
+                return self.fail(&["C18", "C09"], "recaps-succeeds-with-nothing-recoverable", format!("recaps of '{}' returned Ok (an encapsulation with {} targets) although none of the original rights can be opened and published: it must fail", orig.policy, e2.count()));
             }
             return Ok(());
         }
